@@ -192,6 +192,16 @@ theorem call_order_fact :
     startupVerifyGuard = "!raftConfig.NoSnapshotRestoreOnStart" ∧
     startupVerifyBeforeNewRaft = some true := by decide
 
+open RqModel.Gen.SnapVerify in
+/-- **reap_inputs_fact.** In the CURRENT source the checker that `reapInternal` runs just before it
+consolidates is handed the full snapshot's DATABASE file, every WAL file of the full snapshot and
+every WAL file of every newer snapshot - i.e. every file the checkpoint consumes, which is what
+`checkInputs` means in `reapProgram` and what `reap_never_launders` relies on. (`call_order_fact`
+pins the ORDER of the calls only; the seeded change C12d dropped the database file from this set
+without changing the order.) -/
+theorem reap_inputs_fact :
+    reapInputs = ["full.dbFile @ -", "wf @ full.walFiles", "wf @ snap.walFiles"] := by decide
+
 /-! ### the receiver of C12 is the `Restore` of C10 -/
 
 /-- the C10 externals that go with the C12 ones, for a given header decoder -/
